@@ -516,6 +516,9 @@ impl TamperStore<'_> {
                         TickReceipt::try_from_retained_parts(TxId::from_raw(t.pos + 2), r.entries().to_vec(), blocked).ok();
                 }
             }
+            // /repo 90bd2fa: the served entry must be the requested coordinate and link to the previous commit
+            "tickgap" => e.worldline_tick = wt(t.pos + 1),
+            "noparent" => e.parents.clear(),
             "rcptdig" => {
                 e.tick_receipt = TickReceipt::try_from_retained_parts(TxId::from_raw(t.pos + 1), vec![], vec![]).ok();
             }
@@ -843,10 +846,7 @@ fn scen_ops(world: &World, f: &[&str], flags: &mut Vec<String>) -> String {
             _ => "?".into(),
         };
         out.push(format!("{r}/{}", ctx.cursor_str(&cur)));
-        if !clean && (kind == 's' || kind == 'x') && r.starts_with('E') {
-            // after a failed seek the cursor is documented as undefined (SeekError docs): stop here
-            break;
-        }
+        // (since /repo 7e0a2d4 a rejected seek leaves tick and state untouched, so tampered runs continue after errors)
     }
     let unk: Vec<String> = ctx.unknown.iter().map(|(k, v)| format!("{k}:{v}")).collect();
     format!("{}~{}", out.join(";"), if unk.is_empty() { "-".into() } else { unk.join("+") })
